@@ -11,6 +11,7 @@ from engine import pat
 from engine.util import own_nodes, calls_with_nodes, where
 
 RULES = {
+    "R-09.4": "character-strings written by the zone writer are read back octet for octet: the \\DDD escape is written and read with 3 digits and accepted up to 255 (C05 R-05.2 adopted)",
     "R-09.1": "the zone writer never raises for a style that keeps all information: the generic (\\#) path encodes with the style's origin, the writer functions contain no explicit raise, and every boolean style knob only selects between two total formatting branches",
     "R-09.2": "an owner name read from the zone file reaches txn.add only through the `is_subdomain(zone_origin)` test; the out-of-zone arm eats the line and returns without any effect",
     "R-09.3": "the zone reader registers the CNAME/other-data check, and a put reaches the version only after every registered check ran",
@@ -166,6 +167,7 @@ def run(model, rep, tier):
     rep.check("if _matches_type_or_its_signature(_cname_types, rdtype, covers): return NodeKind.CNAME elif _matches_type_or_its_signature(_neutral_types, rdtype, covers): return NodeKind.NEUTRAL else: return NodeKind.REGULAR" in t,
               "R-09.3", nk.qualname, where(nk, nk.node), "classification: CNAME / neutral (NSEC, NSEC3, KEY and their signatures) / regular", "node-kind classification changed", stmt="classify")
     rep.assume("equality of the re-read zone and agreement of equivalent spellings are behavioural and are not decided here")
+    rep.share(model, "C05", {"R-05.2"}, "R-09.4", "zone text is written with dns.rdata._escapify and read with Token.unescape_to_bytes")
     rep.meta["explanation"] = (
         "Three narrow structural clauses: the generic-syntax path encodes with the style's origin and the writer functions cannot raise; a taint-style gate analysis of the owner name in "
         "_rr_line/_generate_line (reachability with the in-zone edge removed, caller-supplied force_name exempt); and who-may-call / must-pass-through for the CNAME-exclusivity hook. "
